@@ -3,7 +3,7 @@
    Statements only.  (The TTY-mirror theorems of C11 live elsewhere.) *)
 From Coq Require Import List ZArith Bool.
 From Termemu Require Import Base Style Screen Kbd Parser Term Render ScreenInv TermInv SgrSpec
-  StyleProofs SgrProofs EscapeProofs RenderProofs ScreenRtProofs.
+  StyleProofs SgrProofs EscapeProofs RenderProofs ScreenRtProofs HistProofs RenderInv.
 Import ListNotations.
 Open Scope Z_scope.
 
@@ -209,3 +209,35 @@ Example C11_screen_example :
   let rs := [ex_row; [mkCell [228; 184; 173] 2 ex_fancy; contc ex_fancy; blank ex_red; blank ex_red]] in
   rows (tmain (fst (run_bytes ex_wc true (init_term 4 2) (render_screen_ansi rs)))) = rs.
 Proof. exact screen_example. Qed.
+
+(* ---- every reachable screen ---- *)
+
+(* The hypothesis [renderable] of the theorems above holds for every row of both buffers after
+   every history of reads (arbitrary bytes, arbitrary chunking) and resizes, for the grid
+   buffer's text rule (an invalid byte is stored as U+FFFD), provided a blank is one cell wide
+   for the width oracle and no screen of the history is narrower than the widest glyph
+   (otherwise the glyph is clipped: known finding D12). *)
+Theorem C11_reachable_rows : forall wc, wc 32 <= 1 -> forall wmax, (forall r, glyph_width (wc r) <= wmax) ->
+  forall w h ops, wmax <= w -> 1 <= w -> 1 <= h -> Forall (hop_wide wmax) ops ->
+  let t := fst (run_hist wc true (init_term w h) ops) in
+  Forall (renderable wc) (rows (tmain t)) /\ Forall (renderable wc) (rows (talt t)).
+Proof. exact reachable_rows_renderable. Qed.
+Print Assumptions C11_reachable_rows.
+
+(* hence ANSILine of every row of either buffer, fed to a fresh terminal of the same size,
+   reproduces every cell (text, width, style) of that buffer *)
+Theorem C11_reachable_roundtrip : forall wc, wc 32 <= 1 -> forall wmax, (forall r, glyph_width (wc r) <= wmax) ->
+  forall w h ops, wmax <= w -> 1 <= w -> 1 <= h -> Forall (hop_wide wmax) ops ->
+  let t := fst (run_hist wc true (init_term w h) ops) in
+  forall s, s = tmain t \/ s = talt t -> sH s <= maxCSIParam ->
+  let res := run_bytes wc true (init_term (sW s) (sH s)) (render_screen_ansi (rows s)) in
+  snd res = [] /\ rows (tmain (fst res)) = rows s.
+Proof. exact reachable_screen_roundtrip. Qed.
+Print Assumptions C11_reachable_roundtrip.
+
+Example C11_reachable_example :
+  Forall (hop_wide 2) ex_hist /\
+  let t := fst (run_hist ex_wc true (init_term 4 2) ex_hist) in
+  rows (tmain (fst (run_bytes ex_wc true (init_term (sW (tmain t)) (sH (tmain t))) (render_screen_ansi (rows (tmain t))))))
+  = rows (tmain t) /\ sW (tmain t) = 6 /\ map ctext (znth 0 (rows (tmain t)) []) <> map ctext (blank_row 6 default_style).
+Proof. exact reachable_example. Qed.
